@@ -794,7 +794,9 @@ def call_numpy(it, f, args, kwargs, node):
     if f == "where":
         if len(args) == 1:
             x = args[0]
-            r = it.fresh(T.app("nonzero", x.term) if isinstance(x, VTens) and x.term is not None else None, (UNK,), "ndarray", node)
+            it.nnz_count = getattr(it, "nnz_count", 0) + 1
+            # the number of selected positions is one named unknown (possibly 0), shared by every later use on this path
+            r = it.fresh(T.app("nonzero", x.term) if isinstance(x, VTens) and x.term is not None else None, ("nnz%d@%s" % (it.nnz_count, it.site(node)),), "ndarray", node)
             r.obj.valkind = "index"
             return VTuple([r] * max(1, (x.rank or 1))) if isinstance(x, VTens) else VTuple([r])
         return opaque_tensor(it, "numpy.where", args, kwargs, node, kind="ndarray")
@@ -839,7 +841,14 @@ def call_numpy(it, f, args, kwargs, node):
         return opaque_tensor(it, "numpy." + f, args, kwargs, node, kind="ndarray")
     if f == "loadtxt":
         it.effect("ext", "io:loadtxt", node, "np.loadtxt")
-        r = it.fresh(T.sym("file(%s)" % (ast.unparse(node.args[0]) if node is not None and node.args else "?")), None, "ndarray", node)
+        a0 = args[0] if args else kwargs.get("fname")
+        if isinstance(a0, VUnknown):
+            fname = a0.tag  # the value handed in, not the spelling of the argument expression
+        elif isinstance(a0, VConst):
+            fname = repr(a0.value)
+        else:
+            fname = ast.unparse(node.args[0]) if node is not None and node.args else "?"
+        r = it.fresh(T.sym("file(%s)" % fname), None, "ndarray", node)
         r.obj.loadtxt_kwargs = kwargs
         return r
     if f.startswith("random."):
